@@ -88,17 +88,22 @@ def sympmat(n):
 
 
 # ------------------------------------------------------------------ matrices <-> JSON
+def _fj(x):
+    x = float(x)
+    return x if math.isfinite(x) else repr(x)   # "nan" / "inf" / "-inf": strict JSON has no literals for them
+
+
 def mat_to_json(A):
     A = np.asarray(A)
     if np.iscomplexobj(A):
-        return {"shape": list(A.shape), "re": [float(x) for x in A.real.ravel()], "im": [float(x) for x in A.imag.ravel()]}
-    return {"shape": list(A.shape), "re": [float(x) for x in A.ravel()]}
+        return {"shape": list(A.shape), "re": [_fj(x) for x in A.real.ravel()], "im": [_fj(x) for x in A.imag.ravel()]}
+    return {"shape": list(A.shape), "re": [_fj(x) for x in A.ravel()]}
 
 
 def mat_from_json(d):
-    re = np.array(d["re"], dtype=float).reshape(d["shape"])
+    re = np.array([float(v) for v in d["re"]], dtype=float).reshape(d["shape"])
     if "im" in d:
-        return re + 1j * np.array(d["im"], dtype=float).reshape(d["shape"])
+        return re + 1j * np.array([float(v) for v in d["im"]], dtype=float).reshape(d["shape"])
     return re
 
 
@@ -452,9 +457,30 @@ def check_valid(routine, A, opts, res):
     raise KeyError(routine)
 
 
+def input_class(routine, A, kind):
+    """Class of the input used in signatures: the generator's kind, refined where one kind mixes mechanisms."""
+    if routine == "sun_compact" and kind not in UNITARY_BAD:
+        A = np.asarray(A)
+        if A.ndim == 2 and A.shape[0] == A.shape[1] and _finite(A):
+            if np.isrealobj(A) and np.linalg.det(A) < 0:
+                return "real-negative-det"
+            if (A == 0).any():
+                return "exact-zeros"
+    return kind
+
+
 def evaluate(case):
     """Run one case on the implementation.  Returns (outcome, failure) where outcome is
     'ok' | 'rejected:<ExcType>' and failure is None or (signature, message)."""
+    out, fail = _evaluate(case)
+    if fail is not None:
+        cls = input_class(case["routine"], mat_from_json(case["matrix"]), case.get("kind"))
+        sig = fail[0] if fail[0].endswith(":" + str(case.get("kind"))) and cls == case.get("kind") else "%s:%s" % (fail[0], cls)
+        fail = (sig, fail[1])
+    return out, fail
+
+
+def _evaluate(case):
     routine = case["routine"]
     A = mat_from_json(case["matrix"])
     opts = dict(case.get("opts", {}))
@@ -688,7 +714,7 @@ def rand_symplectic(n, rs, s=None):
 
 
 COV_KINDS = ["random", "vacuum", "thermal-diag", "pure", "degenerate", "thermal-degenerate", "squeezed-diag", "scaled-vacuum"]
-COV_BAD = ["asymmetric", "odd", "indefinite", "non-square", "singular"]
+COV_BAD = ["asymmetric", "odd", "indefinite", "non-square", "singular", "nan"]
 
 
 def gen_cov(rs, kind, n):
@@ -728,6 +754,10 @@ def gen_cov(rs, kind, n):
     if kind == "singular":
         A = rs.randn(2 * n, 2 * n - 1)
         return A @ A.T
+    if kind == "nan":
+        A = gen_cov(rs, "random", n)
+        A[0, 0] = np.nan
+        return A
     if kind == "non-square":
         return rs.randn(2 * n, 2 * n + 2)
     raise KeyError(kind)
@@ -739,7 +769,7 @@ def _sym(A):
 
 SYMP_KINDS = ["random", "passive", "identity", "degenerate", "partially-passive", "diagonal-squeezer", "diagonal-antisqueezer",
               "two-mode-squeezer", "passive-permutation", "mixed-degenerate", "near-passive"]
-SYMP_BAD = ["non-symplectic", "odd", "non-square", "scaled"]
+SYMP_BAD = ["non-symplectic", "odd", "non-square", "scaled", "nan"]
 
 
 def gen_symp(rs, kind, n):
@@ -783,6 +813,10 @@ def gen_symp(rs, kind, n):
     # ---- invalid
     if kind == "non-symplectic":
         return rs.randn(2 * n, 2 * n)
+    if kind == "nan":
+        A = rand_symplectic(n, rs)
+        A[0, 0] = np.nan
+        return A
     if kind == "scaled":
         return rand_symplectic(n, rs) * (1 + 10.0 ** rs.uniform(-8, -2))
     if kind == "odd":
@@ -919,7 +953,7 @@ def _MZ_from(u, w, m, N):
 def model_reconstruct(kind, steps, diag, N):
     """Unitary implemented by the model's own factors (kind 'T' or 'MZ'), rectangular layout."""
     q = np.eye(N, dtype=complex)
-    mk = (lambda p, m: _T_from(p[0], p[1], _cx(p[2]), m, N)) if kind == "T" else (lambda p, m: _MZ_from(_cx(p[0]), _cx(p[1]), m, N))
+    mk = (lambda p, m: _T_from(p[0], p[1], _cx(p[2]), m, N)) if kind == "T" else (lambda p, m: _MZ_from(complex(p[0], p[1]), _cx(p[2]), m, N))
     for is_col, tr, tc, p in steps:
         if is_col:
             q = mk(p, tc) @ q
@@ -950,7 +984,8 @@ def compare_MZ(steps, impl_ti, impl_t):
     if len(cols) != len(impl_ti) or len(rows) != len(impl_t):
         return "lengths differ"
     for lst, impl, col in ((cols, impl_ti, True), (rows, impl_t, False)):
-        for (is_col, tr, tc, (u, w)), ent in zip(lst, impl):
+        for (is_col, tr, tc, (ur, ui, w)), ent in zip(lst, impl):
+            u = (ur, ui)
             m = tc if col else tr - 1
             if int(ent[0]) != m or int(ent[1]) != m + 1:
                 return "indices differ: model %d impl %r" % (m, ent[:2])
@@ -998,7 +1033,7 @@ def correspondence(ctx):
                     case = {"routine": routine, "kind": "haar", "n": n, "opts": {}, "matrix": mat_to_json(haar(n, rs))}
                     out, fail = evaluate(case)
                     if fail:
-                        ctx.counterexample(fail[0] + ":haar", fail[1], case)
+                        ctx.counterexample(fail[0], fail[1], case)
                     ctx.disagreement("corr:schedule:" + routine, "nulling order of %s(n=%d) differs from the model: impl %r model %r" % (routine, n, impl[:8], model_l[:8]),
                                      {"routine": routine, "n": n, "impl": impl, "model": model_l})
                     break
@@ -1017,15 +1052,15 @@ def correspondence(ctx):
     shard = 40
     for si in range(0, len(cases), shard):
         lines = [COQ_HEADER]
-        for kind, n, A in cases[si:si + shard]:
-            lines.append("Definition V := %s." % coq_cmatrix(A))
-            lines.append("Eval vm_compute in (rectangular_f %d V, triangular_f %d V, rectangular_MZ_f %d V)." % (n, n, n))
-            lines.append("Reset V.")
+        for ci, (kind, n, A) in enumerate(cases[si:si + shard]):
+            lines.append("Definition V%d := %s." % (ci, coq_cmatrix(A)))
+            lines.append("Eval vm_compute in rectangular_f %d V%d.\nEval vm_compute in triangular_f %d V%d.\nEval vm_compute in rectangular_MZ_f %d V%d." % (n, ci, n, ci, n, ci))
         ok, vals, raw = ctx.coq_eval("mesh_%d" % (si // shard), "\n".join(lines), timeout=600)
-        if not ok or len(vals) != len(cases[si:si + shard]):
+        if not ok or len(vals) != 3 * len(cases[si:si + shard]):
             ctx.obligation("correspondence:mesh:shard%d" % (si // shard), False, raw)
             return
-        for (kind, n, A), (rect_m, tri_m, mz_m) in zip(cases[si:si + shard], vals):
+        for ci, (kind, n, A) in enumerate(cases[si:si + shard]):
+            rect_m, tri_m, mz_m = vals[3 * ci], vals[3 * ci + 1], vals[3 * ci + 2]
             ctx.traces += 1
             case_json = {"check": "mesh-model", "kind": kind, "n": n, "matrix": mat_to_json(A)}
             ctx.case(case_json, nontrivial=is_nontrivial(kind), bucket="corr-" + kind)
@@ -1071,7 +1106,8 @@ def correspondence(ctx):
                 if len(sy_t) != k + len(zpushed):
                     r2 = "symmetric length"
                 else:
-                    for (m, (u, w)), ent in zip(zpushed, sy_t[k:]):
+                    for (m, (ur, ui, w)), ent in zip(zpushed, sy_t[k:]):
+                        u = (ur, ui)
                         if int(ent[0]) != m or not (_close(_cx(u), np.exp(1j * ent[2])) and _close(_cx(w), np.exp(1j * ent[3]))):
                             r2 = "pushed MZ element differs at mode %d: model %r impl %r" % (m, (u, w), ent)
                             break
@@ -1083,7 +1119,7 @@ def correspondence(ctx):
                 case = {"routine": routine, "kind": kind, "n": n, "opts": {}, "matrix": mat_to_json(A)}
                 out, fail = evaluate(case)
                 if fail:
-                    ctx.counterexample(fail[0] + ":" + kind, fail[1], case)
+                    ctx.counterexample(fail[0], fail[1], case)
                     continue
                 # both may be valid decompositions that took different exact-zero / ill-conditioned branches
                 benign = False
@@ -1103,3 +1139,86 @@ def correspondence(ctx):
                     ctx.disagreement("corr:mesh:" + routine, "model and implementation differ on a %s unitary (n=%d): %s" % (kind, n, why), case)
     ctx.notes.append("mesh correspondence: %d inputs x 5 routines, %d benign branch divergences (both outputs valid decompositions)" % (len(cases), diverged))
     ctx.obligation("correspondence:mesh:divergence-rate", diverged <= max(3, 0.1 * len(cases) * 5), "%d diverged" % diverged)
+
+
+# ------------------------------------------------------------------ failing-input search on the implementation
+def _corpus_cases():
+    import glob
+    import json
+    import os
+    out = []
+    for p in sorted(glob.glob(os.path.join(coq.VERIF, "corpus", "C17-*.json"))):
+        try:
+            d = json.load(open(p))
+            out.append((os.path.basename(p), d["data"]))
+        except Exception:  # noqa: BLE001
+            continue
+    return out
+
+
+def _report(ctx, case, fail):
+    ctx.counterexample(fail[0], "%s on a %s input (n=%d): %s" % (case["routine"], case.get("kind"), case.get("n", -1), fail[1]), case)
+
+
+def search(ctx):
+    """The property's own predicate on the implementation, for every anchored routine:
+    valid input  -> factors have the promised structure and multiply back to the input;
+    invalid input -> an exception, or (if accepted) still a correct decomposition."""
+    rng = ctx.rng
+    np.seterr(all="ignore")
+    # corpus first (minimised past failures / recorded findings)
+    for name, case in _corpus_cases():
+        if "routine" not in case:
+            continue
+        out, fail = evaluate(case)
+        ctx.case({"corpus": name, "routine": case["routine"], "kind": case.get("kind"), "outcome": out}, nontrivial=True, bucket="corpus")
+        if fail:
+            _report(ctx, case, fail)
+    n_cases = ctx.budget(2600, 40000)
+    for i in range(n_cases):
+        routine = ALL_ROUTINES[i % len(ALL_ROUTINES)]
+        big = rng.random() < 0.04
+        case = gen_case(rng, routine=routine, bad_fraction=0.2, max_n=(20 if big and routine in UNITARY_ROUTINES else (12 if big else 7)))
+        out, fail = evaluate(case)
+        small = {"routine": routine, "kind": case["kind"], "n": case["n"], "opts": case["opts"], "outcome": out,
+                 "h": hash(tuple(str(v) for v in case["matrix"]["re"])) & 0xffffffff}
+        ctx.case(small, nontrivial=is_nontrivial(case["kind"]), bucket="%s/%s" % (routine, out.split(":")[0]))
+        if fail:
+            _report(ctx, case, fail)
+    # metamorphic: a decomposition must not modify its argument
+    for routine in ALL_ROUTINES:
+        case = gen_case(rng, routine=routine, bad_fraction=0.0, max_n=5)
+        A = mat_from_json(case["matrix"])
+        B = A.copy()
+        try:
+            call_routine(routine, A, dict(case["opts"]))
+        except Exception:  # noqa: BLE001
+            pass
+        same = (A.shape == B.shape) and bool(np.all((A == B) | (np.isnan(A) & np.isnan(B))))
+        ctx.case({"check": "input-untouched", "routine": routine, "kind": case["kind"]}, nontrivial=False, bucket="input-untouched")
+        if not same:
+            ctx.counterexample("%s:mutates-input" % routine, "%s modified the matrix passed to it" % routine, dict(case, check="mutates-input"))
+
+
+def replay(ctx, data):
+    case = data["data"]
+    np.seterr(all="ignore")
+    if case.get("check") == "mutates-input":
+        A = mat_from_json(case["matrix"]); B = A.copy()
+        try:
+            call_routine(case["routine"], A, dict(case.get("opts", {})))
+        except Exception:  # noqa: BLE001
+            pass
+        bad = not bool(np.all((A == B) | (np.isnan(A) & np.isnan(B))))
+        print("input modified:", bad)
+        return bad
+    if "routine" not in case or "matrix" not in case:
+        print("replay file names a broken obligation / model disagreement, not an input: %s" % data.get("what"))
+        return False
+    out, fail = evaluate(case)
+    A = mat_from_json(case["matrix"])
+    print("routine:", case["routine"], "| input class:", case.get("kind"), "| shape:", A.shape, "| opts:", case.get("opts"))
+    print("valid input (independent check):", valid_input(case["routine"], A, dict(case.get("opts", {}))))
+    print("implementation outcome:", out)
+    print("property predicate:", "FAILS - %s: %s" % fail if fail else "holds")
+    return fail is not None
